@@ -85,9 +85,28 @@ func (h hostEnd) Write(b []byte) (int, error) {
 		p.mu.Unlock()
 		return 0, errLinkDown
 	}
+	d := p.writeTime
+	if d > 0 && len(b) >= 8 {
+		// a slow port takes the caller's bytes over the duration of the call: the first half now, the second half
+		// - read from the caller's buffer only then - when the transmission time is over (an io.Writer may read its
+		// argument until it returns)
+		h := len(b) / 2
+		p.toTNC = append(p.toTNC, b[:h]...)
+		p.cond.Broadcast()
+		p.mu.Unlock()
+		time.Sleep(d)
+		p.mu.Lock()
+		if p.hostClose || p.tncEOF || p.txBroken {
+			p.mu.Unlock()
+			return h, errLinkDown
+		}
+		p.toTNC = append(p.toTNC, b[h:]...)
+		p.cond.Broadcast()
+		p.mu.Unlock()
+		return len(b), nil
+	}
 	p.toTNC = append(p.toTNC, b...)
 	p.cond.Broadcast()
-	d := p.writeTime
 	p.mu.Unlock()
 	if d > 0 {
 		time.Sleep(d)
